@@ -3,6 +3,7 @@ stub PAM headers and ASan/UBSan) against scripted servers."""
 import concurrent.futures
 import os
 import random
+import signal
 import socket
 import subprocess
 import tempfile
@@ -18,7 +19,7 @@ CODES = {0: "PAM_SUCCESS", 7: "PAM_AUTH_ERR", 9: "PAM_AUTHINFO_UNAVAIL", 21: "PA
 
 def build():
     src = os.path.join(vlib.VERIF, "harness", "pam")
-    r = vlib.run(["clang", "-fsanitize=address,undefined", "-fno-omit-frame-pointer", "-g", "-O1", "-Wall",
+    r = vlib.run(["clang", "-fsanitize=address,undefined", "-fno-omit-frame-pointer", "-g", "-O1", "-Wall", "-Wl,--wrap=send", "-Wl,--wrap=write",
                   "-I", os.path.join(src, "stub"), "-o", PAMDRV, os.path.join(src, "pamdrv.c"),
                   os.path.join(vlib.REPO, "pam", "pam_whawty.c")])
     if r.returncode != 0:
@@ -116,7 +117,7 @@ def complete(b):
 
 
 def one_case(args):
-    (idx, user, stack_pw, conv_pw, opts, chunks, connect, close_at_end, early_close, cls, tmo) = args
+    (idx, user, stack_pw, conv_pw, opts, chunks, connect, close_at_end, early_close, cls, tmo, extra) = args
     d = tempfile.mkdtemp(prefix="verif-pam-")
     path = os.path.join(d, "s")
     srv = Srv(path, chunks, listen=connect, close_at_end=close_at_end, early_close=early_close)
@@ -132,10 +133,26 @@ def one_case(args):
     # LeakSanitizer cannot run under ptrace (the strace'd early-close case)
     env = dict(os.environ, ASAN_OPTIONS="detect_leaks=%d:abort_on_error=0" % (0 if early_close else 1),
                UBSAN_OPTIONS="print_stacktrace=1:halt_on_error=1")
+    if extra.get("send_cap"):
+        env["PAMDRV_SEND_CAP"] = str(extra["send_cap"])
     try:
-        r = subprocess.run(argv, capture_output=True, timeout=30, env=env)
-        out, err, rc = r.stdout.decode("latin1"), r.stderr.decode("latin1"), r.returncode
+        pr = subprocess.Popen(argv, stdout=subprocess.PIPE, stderr=subprocess.PIPE, env=env)
+        if extra.get("signal_ms") is not None:
+            # a signal with a handler in the host application, while the module waits for the reply
+            def poke():
+                for k in range(extra.get("signals", 1)):
+                    time.sleep(extra["signal_ms"] / 1000.0)
+                    if pr.poll() is None:
+                        try:
+                            pr.send_signal(signal.SIGUSR1)
+                        except OSError:
+                            pass
+            threading.Thread(target=poke, daemon=True).start()
+        o, e = pr.communicate(timeout=30)
+        out, err, rc = o.decode("latin1"), e.decode("latin1"), pr.returncode
     except subprocess.TimeoutExpired:
+        pr.kill()
+        pr.communicate()
         out, err, rc = "", "TIMEOUT", -999
     dt = time.time() - t0
     srv.join(timeout=5)
@@ -174,6 +191,14 @@ def one_case(args):
                       "conv_pw": None if conv_pw is None else len(conv_pw), "opts": [o.decode("latin1") for o in opts],
                       "chunks": [(dl, data.hex()[:80]) for dl, data in chunks], "connect": connect, "early_close": early_close,
                       "code": code, "seconds": round(dt, 2), "request_hex": srv.request.hex()[:120]}}
+    if extra.get("signal_ms") is not None:
+        # signals are outside the model (Pam.v): judged here - a bounded return, and success only after a
+        # complete reply that begins with OK
+        case["coq"] = ""
+        sent = b"".join(data for _, data in chunks)
+        full_ok = len(sent) >= 4 and sent[0] * 256 + sent[1] >= 2 and len(sent) >= 2 + sent[0] * 256 + sent[1] and sent[2:4] == b"OK"
+        if code == 0 and not full_ok:
+            viol.append("PAM_SUCCESS although the agent never sent a complete reply beginning with OK (a signal arrived while waiting)")
     if viol:
         case["violation"] = "; ".join(viol)
     return case
@@ -188,8 +213,8 @@ def gen(prop, seed, tier):
     rng = random.Random(seed)
     jobs = []
 
-    def add(cls, user=b"alice", stack=None, conv=b"secret", opts=(), chunks=(), connect=True, close=True, early=False, tmo=3):
-        jobs.append((len(jobs), user, stack, conv, list(opts), list(chunks), connect, close, early, cls, tmo))
+    def add(cls, user=b"alice", stack=None, conv=b"secret", opts=(), chunks=(), connect=True, close=True, early=False, tmo=3, **extra):
+        jobs.append((len(jobs), user, stack, conv, list(opts), list(chunks), connect, close, early, cls, tmo, extra))
 
     replies = [b"OK", b"NO", b"OK successfully authenticated", b"NO wrong credentials", b"OKAY", b"ok", b"O", b"", b"K", b"OK\x00",
                b"NOOK", b" OK", b"XOK", b"OK" + b"x" * 254, b"OK" + b"x" * 255, b"NO" + b"y" * 300]
@@ -228,6 +253,16 @@ def gen(prop, seed, tier):
                               ([b"timeout=2x"], None, b"convpw")]:
         add("options", stack=stack, conv=conv, opts=opts, chunks=[(0, part(b"OK"))])
         add("options", stack=stack, conv=conv, opts=opts, chunks=[(0, part(b"NO"))])
+    # (4b) short writes: the kernel takes only a few bytes of every send / write of the module; the request on
+    # the wire is still the encoding of the (clipped) fields
+    for cap in (1, 2, 3, 7, 64, 255):
+        for (u, pw) in [(b"alice", b"secret"), (b"u" * 255, b"p" * 256), (bytes(range(1, 200)), bytes(range(200, 256)) * 3), (b"", b"x")]:
+            add("short-writes/cap-%d" % cap, user=u, conv=pw, chunks=[(0, part(b"OK"))], send_cap=cap)
+    # (4c) a signal (handled by the host application) arrives while the module waits for the reply
+    for name, chunks, close in [("full-ok", [(400, part(b"OK"))], True), ("full-no", [(400, part(b"NO"))], True), ("close-without-reply", [(400, b"")], True),
+                                ("cut-in-header", [(400, part(b"OK")[:1])], True), ("cut-in-body", [(400, part(b"OK success")[:5])], True),
+                                ("silence", [], False)]:
+        add("signal/" + name, chunks=chunks, close=close, opts=[b"timeout=2"], tmo=2, signal_ms=120, signals=2)
     # (5) unreachable socket, early close, silence on either side of the timeout
     add("server/unreachable", connect=False)
     add("server/early-close", early=True)
